@@ -570,7 +570,7 @@ class TdmsChannel(object):
         :rtype: numpy.dtype
         """
         channel_scaling = self._scaling
-        if channel_scaling is not None:
+        if channel_scaling is not None and self.data_type is not None:
             return channel_scaling.get_dtype(self.data_type, self.scaler_data_types)
         return self._raw_data_dtype()
 
